@@ -96,6 +96,22 @@ def run(rep, tier, seed, replay):
                     pivot = int(walklib.parse_answer(w)[1].get("pivot", "0"))
                 except ValueError:
                     pivot = 0
+            if not anc:
+                # a directory that the underlying walk does not YIELD (the glob does not match it) is still fed to the
+                # negation as residue: any directory above the lost entry that a pattern claiming Always matches
+                pats = [x for layer in c.stack.split(";") for x in layer.split(":", 1)[1].split("+")]
+                claims = [x for x, line in zip(pats, h.ask(["B " + x for x in pats])) if lib.parse_impl_build(line).get("exh") == "always"]
+                root_t = unhx(t.f.get("root_real", "-"))
+                sample = walklib.ok_items(t.f.get("items"))
+                lost = missing[0].replace("@R", root_t)
+                # the relative segment of the lost entry, as the twin reports it
+                rel = next((x[2] for x in sample if x[0] == missing[0]), None)
+                if rel is not None and claims:
+                    parts = rel.replace("@R", root_t).split("/")
+                    ancestors = ["/".join(parts[:i]) for i in range(0, len(parts))]
+                    hits = h.ask(["M %s %s" % (x, hx(a)) for x in claims for a in ancestors])
+                    if any(line.startswith("match") for line in hits):
+                        anc = ["(residue)"]
             if anc:
                 tag = "K-NOT-FALSE-ALWAYS"
             elif pivot > 0:
